@@ -78,6 +78,15 @@ def op_multiline(g, cond):
     """
 
 
+def op_multiline_in_block(g, cond):
+    # a multi-line chunk yielded INSIDE a block: its rows belong to the block
+    with g.block("b 1"):
+        yield """
+            c
+            d 1
+        """
+
+
 def op_z(g, cond):
     yield "z"
 
@@ -132,12 +141,13 @@ OPS = [
     (op_block_if_zero, lambda c: [("area 0",), ("area 0", "network x")]),
     (op_block_if_false_token, lambda c: [("unit 0",), ("unit 0", "c")] if c else [("c",)]),
     (op_block_under_leaf, lambda c: [("a",), ("a", "c")]),
+    (op_multiline_in_block, lambda c: [("b 1",), ("b 1", "c"), ("b 1", "d 1")]),
 ]
 
 # programs: (ops..., cond)
 PROGS = [(i,) for i in range(len(OPS))] + [
     (1, 3), (3, 4), (4, 3), (5, 1), (6, 3), (7, 2), (3, 8), (9, 3), (10, 1), (1, 9), (2, 2), (3, 3),
-    (1, 3, 5), (3, 6, 4), (10, 9, 1), (7, 4, 6), (5, 10, 3), (11, 1), (11, 3, 9), (2, 11, 5), (12, 1), (13, 3), (14,), (14, 3),
+    (1, 3, 5), (3, 6, 4), (10, 9, 1), (7, 4, 6), (5, 10, 3), (11, 1), (11, 3, 9), (2, 11, 5), (12, 1), (13, 3), (14,), (14, 3), (15, 1),
 ]
 PROGS = [(p, True) for p in PROGS] + [(p, False) for p in PROGS if 5 in p or 11 in p or 13 in p]
 PROGS_Q = PROGS[:24] + PROGS[-6:]
